@@ -10,6 +10,12 @@ RULE = ("triples (D1, X, D2): D1, D2 grammar documents (D1 ending in a complete 
         "field names (DuplicateFieldKeyBlock) or entry / string keys (DuplicateBlockKeyBlock). Blocks are compared on everything "
         "public: class, raw, start line, type, key, fields with their lines, and for failed blocks the error class and text, "
         "duplicate_keys, key, ignore_error_block and previous_block (each taken as it is when parse returns). "
+        "Stream TR: X = a block cut off inside each state of the splitter's scanners (after '@type{', in the key, after the comma, "
+        "after a field name, after '=', inside a quoted / braced / nested / concatenated value, behind a finished value, inside "
+        "@string / @preamble / @comment bodies; optionally behind garbage, complete blocks or another cut-off block) crossed with "
+        "suffixes D2 that hold, early, what would end the open construct (a quote followed by ',' or '}', closing braces, '=', ',') "
+        "in braced values, comment / preamble / string bodies and free text behind the first block. Also checked for every "
+        "non-empty X: parse(D1+X) alone starts with parse(D1). "
         "distinct = distinct (D1, X, D2); non-trivial = X is non-empty and not whitespace")
 TRUSTED = ["the decomposition into D1 / X / D2 is the generator's"]
 ASSUMPTIONS = []
@@ -72,7 +78,191 @@ def generate(rng, tier):
     for a in d1s:
         for b in d2s:
             cases.append({"stream": "concat", "input": {"d1": a, "x": "", "d2": b}})
+    # blocks truncated inside every scanner state x suffixes that contain, early, what would 'complete' the open construct
+    # (appended last: the draws above stay as they were)
+    for _ in range(1 if tier == "quick" else 10):
+        for hclass, head in _completing_heads(rng):
+            for state, tx in _truncated(rng):                 # fresh fillers for every suffix
+                x = _lead(rng) + tx + rng.choice(["", "", "\n", " ", "\n\n", "\t", "\r\n", " \n "])
+                d2 = head + rng.choice(["", "\n", "\n@book{R9, title = {Third}}\n", "\n" + rng.choice(d2s[:6]), " " + rng.choice(d2s)])
+                cases.append({"stream": "TR", "input": {"d1": rng.choice(d1s), "x": x, "d2": d2, "state": state, "hclass": hclass}})
     return cases
+
+
+# ------------------------------------------------------------------ truncated blocks x 'completing' suffixes
+_WORDS = ["An", "unfinished", "title", "24", "x", "é", "Zoë", ".", ":", "-", "and", "4K", "size", "1999"]
+_TRICKY = [",", "=", ", ", " = ", "{b}", "{}", "#", "\\\"", "\\{", "\\}", "\\", "\n", "\t", "\r\n", "@", "a@b.c", "{a, b = c}"]
+
+
+def _fill(rng, quote_ok=False, lo=0):
+    """text inside an open value / body: keeps the scanner in the state it is in (no active quote unless quote_ok, braces paired)"""
+    out = []
+    for _ in range(rng.randint(lo, 4)):
+        r = rng.random()
+        if r < 0.2:
+            out.append(rng.choice(_TRICKY))
+        elif r < 0.27 and quote_ok:
+            out.append(rng.choice(['"', '" ', '"a"']))
+        else:
+            out.append(rng.choice(_WORDS))
+        if rng.random() < 0.6:
+            out.append(rng.choice([" ", " ", " ", "\n", "  "]))
+    return "".join(out)
+
+
+def _lead(rng):
+    """what X has before its truncated block: nothing, garbage lines, complete blocks (keys X*), another truncated block"""
+    r = rng.random()
+    if r < 0.45:
+        return ""
+    if r < 0.6:
+        return rng.choice(["\n", " ", "\n\n", "junk\n", "} }\n", "\" , = {\n", "% note\n", "=\n", ",\n", "\"\n"])
+    if r < 0.8:
+        return rng.choice(["\n", " ", ""]) + rng.choice([
+            "@misc{X1, a = {b}}", "@misc{X2, a = \"b\", c = 1}", "@string{X3 = \"s\"}", "@comment{x}", "@preamble{\"p\"}",
+            "@misc{X4}"]) + rng.choice(["\n", " ", "", "\n\n"])
+    return rng.choice(["\n", ""]) + rng.choice(_truncated(rng))[1] + "\n"
+
+
+def _truncated(rng):
+    """one block cut off inside each state of the splitter's scanners -> [(state, text)]"""
+    ws = lambda: rng.choice(G.INNER_WS)
+    sp = lambda: rng.choice(["", " ", " ", " ", "\n", "\t", "  "])
+    typ = rng.choice(["article", "Book", "misc", "a", "x_1"])
+    key = rng.choice(["X5", "broken", "X6:a", "x.7"])
+    name = rng.choice(["title", "a", "ID", "Author", "1/"])
+
+    def ehead():
+        h = "@" + typ + rng.choice(G.HWS) + "{" + ws() + key + ws() + ","
+        for i in range(rng.choice([0, 0, 0, 1, 1, 2])):           # complete fields before the one that is cut off
+            h += ws() + "f%d" % i + sp() + "=" + sp() + rng.choice(["{A. Uthor}", "\"q\"", "1999", "{a {b} c}", "jan # \"x\"", "{}"]) + ws() + ","
+        return h
+
+    def eq():
+        return ehead() + ws() + name + sp() + "=" + sp()
+
+    skw = "@" + rng.choice(["string", "String", "STRING"]) + rng.choice(G.HWS) + "{"
+    pkw = "@" + rng.choice(["preamble", "Preamble", "PREAMBLE"]) + rng.choice(G.HWS) + "{"
+    ckw = "@" + rng.choice(["comment", "Comment", "COMMENT"]) + rng.choice(G.HWS) + "{"
+    out = [
+        ("e-open", "@" + typ + rng.choice(G.HWS) + "{"),
+        ("e-key", "@" + typ + rng.choice(G.HWS) + "{" + ws() + key),
+        ("e-key-ws", "@" + typ + "{" + key + rng.choice([" ", "\n", " x y"])),
+        ("e-comma", ehead()),
+        ("e-name", ehead() + ws() + name),
+        ("e-eq", eq()),
+        ("e-quoted", eq() + '"' + _fill(rng, lo=1)),
+        ("e-quoted-empty", eq() + '"'),
+        ("e-braced", eq() + "{" + _fill(rng, quote_ok=True, lo=1)),
+        ("e-braced-empty", eq() + "{"),
+        ("e-braced-nested", eq() + "{" + _fill(rng, quote_ok=True) + "{" + _fill(rng, quote_ok=True)),
+        ("e-braced-quote", eq() + "{" + _fill(rng) + '"' + _fill(rng)),
+        ("e-quoted-brace", eq() + '"' + _fill(rng) + "{" + _fill(rng)),
+        ("e-quoted-brace-closed", eq() + '"' + _fill(rng) + "{" + rng.choice(_WORDS) + "}" + _fill(rng)),
+        ("e-concat", eq() + rng.choice(['"a"', "{a}", "jan"]) + sp() + "#" + sp()),
+        ("e-concat-quoted", eq() + rng.choice(['"a"', "{a}", "jan"]) + sp() + "#" + sp() + '"' + _fill(rng)),
+        ("e-concat-braced", eq() + rng.choice(['"a"', "{a}", "jan"]) + sp() + "#" + sp() + "{" + _fill(rng, quote_ok=True)),
+        ("e-value-done-braced", eq() + "{" + _fill(rng) + "}"),
+        ("e-value-done-quoted", eq() + '"' + _fill(rng) + '"'),
+        ("e-bare", eq() + rng.choice(["1999", "jan", "x-y"])),
+        ("e-quote-after-value", eq() + rng.choice(["{a}", '"a"', "12"]) + sp() + '"' + _fill(rng)),
+        ("s-open", skw),
+        ("s-name", skw + ws() + "X8"),
+        ("s-eq", skw + ws() + "X8" + sp() + "=" + sp()),
+        ("s-quoted", skw + ws() + "X8" + sp() + "=" + sp() + '"' + _fill(rng)),
+        ("s-braced", skw + ws() + "X8" + sp() + "=" + sp() + "{" + _fill(rng, quote_ok=True)),
+        ("s-value-done", skw + "X8 = " + rng.choice(['"a"', "{a}", "12", '"a" # ']) + ws()),
+        ("s-noeq-quoted", skw + ws() + '"' + _fill(rng)),
+        ("p-open", pkw),
+        ("p-text", pkw + _fill(rng, lo=1)),
+        ("p-quoted", pkw + ws() + '"' + _fill(rng)),
+        ("p-braced", pkw + ws() + "{" + _fill(rng, quote_ok=True)),
+        ("p-concat-quoted", pkw + '"a"' + sp() + "#" + sp() + '"' + _fill(rng)),
+        ("c-open", ckw),
+        ("c-text", ckw + _fill(rng, lo=1)),
+        ("c-quoted", ckw + ws() + '"' + _fill(rng)),
+        ("c-braced", ckw + _fill(rng) + "{" + _fill(rng, quote_ok=True)),
+        ("c-braced2", ckw + "{{" + _fill(rng, quote_ok=True)),
+    ]
+    return out
+
+
+def _completing_heads(rng):
+    """Starts of well-formed suffix documents (keys R*): the first block - or free text right behind it - holds, early, the
+    characters that would end a construct left open before it: a quote followed by `,` or `}`, closing braces, `=`, `,`.
+    All are derivations of the dialect grammar: a quote inside braces is an ordinary character, free text may hold any delimiter."""
+    w = lambda: rng.choice(_WORDS)
+    g = lambda: rng.choice(["", "", " ", "  ", "\n", "\t"])
+    typ = lambda: rng.choice(["article", "Book", "misc", "a"]) + rng.choice(G.HWS)
+    nm = lambda: rng.choice(["title", "a", "note"])
+    fixed = [
+        ("v-q-comma", "@%s{R1, %s = {A 24\", 4K display}, year = 2020}" % (typ(), nm())),
+        ("v-q-comma", "@%s{R1,%s%s%s=%s{%s\"%s,%s}%s}" % (typ(), g(), nm(), g(), g(), w(), g(), w(), g())),
+        ("v-q-brace", "@%s{R1, %s = {say \"}, year = 2020}" % (typ(), nm())),
+        ("v-q-brace", "@%s{R1,%s%s%s=%s{%s\"%s}%s}" % (typ(), g(), nm(), g(), g(), w(), g(), g())),
+        ("v-q-only", "@%s{R1, %s = {\"}}" % (typ(), nm())),
+        ("v-q-nested", "@%s{R1, %s = {a {b\", c} d}, e = {\"}}" % (typ(), nm())),
+        ("v-quoted", "@%s{R1, %s = \"Second\", year = 2000}" % (typ(), nm())),
+        ("v-quoted", "@%s{R1, %s = \"Second\"%s}" % (typ(), nm(), g())),
+        ("v-quoted-empty", "@%s{R1, %s = \"\"%s%s" % (typ(), nm(), g(), rng.choice(["}", ", b = 1}", ",}"]))),
+        ("v-quoted-concat", "@%s{R1, %s = \"a\" # \"b\", c = {d}}" % (typ(), nm())),
+        ("v-braces", "@%s{R1, %s = {{x}}}" % (typ(), nm())),
+        ("v-braces", "@%s{R1, %s = {}}" % (typ(), nm())),
+        ("v-eq", "@%s{R1, %s = {a = b, c = d}}" % (typ(), nm())),
+        ("v-bare", "@%s{R1, %s = 1, b = jan}" % (typ(), nm())),
+        ("e-keyonly", "@%s{R1}" % typ()),
+        ("e-keyonly", "@%s{R1,%s}" % (typ(), g())),
+        ("c-q", "@comment{the \" character}"),
+        ("c-q", "@Comment{\"}"),
+        ("c-q-comma", "@comment{%s\"%s, %s}" % (w(), g(), w())),
+        ("c-q-comma", "@COMMENT {\" ,}"),
+        ("c-q-brace", "@comment{%s {%s\"%s} }" % (w(), w(), g())),
+        ("c-eq", "@comment{x = y}"),
+        ("c-eq", "@comment{=}"),
+        ("c-comma", "@comment{,}"),
+        ("c-braces", "@comment{{}}"),
+        ("c-empty", "@comment{}"),
+        ("p-q", "@preamble{ \"}"),
+        ("p-q-comma", "@preamble{\"%s\"%s, %s}" % (w(), g(), w())),
+        ("p-q-comma", "@Preamble {%s\"%s,}" % (w(), g())),
+        ("p-quoted", "@preamble{ \"text\" }"),
+        ("p-eq", "@preamble{=}"),
+        ("p-braces", "@preamble{{}}"),
+        ("s-q-comma", "@string{R1 = {a\", b}}"),
+        ("s-q", "@String{R1 = {\"}}"),
+        ("s-quoted", "@string{R1 = \"x\"}"),
+        ("s-bare", "@string{R1%s=%s1}" % (g(), g())),
+        ("f-q-comma", "@comment{checked}\nsize: 24\", weight: 2kg"),
+        ("f-q-comma", "@%s{R1}%ssize %s\"%s, %s" % (typ(), rng.choice(["\n", " ", "\n\n"]), w(), g(), w())),
+        ("f-q-brace", "@%s{R1, a = 1}\n%s \"%s} %s" % (typ(), w(), g(), w())),
+        ("f-q", "@comment{x}\n\""),
+        ("f-brace", "@%s{R1}\nfree } text" % typ()),
+        ("f-brace", "@comment{x}\n}}"),
+        ("f-eq", "@%s{R1}\na = b, c" % typ()),
+        ("f-comma", "@string{R1 = 1}\n, x"),
+        ("f-mixed", "@preamble{x}\n%s = \"%s\", }" % (w(), w())),
+    ]
+    out = list(fixed)
+    # random ones: a container x a few atoms drawn from words and completing characters
+    comp = ['"', '",', '" ,', '"\n,', "=", ",", "{}", '{"}', '{",}']
+    for _ in range(12):
+        r = rng.random()
+        free = r >= 0.75
+        body = ""
+        for _ in range(rng.randint(1, 4)):
+            a = rng.choice(comp + (['"}', '" }', "}"] if free else [])) if rng.random() < 0.6 else w()   # lone closers: free text only
+            body += a + rng.choice(["", " ", " ", "\n"])
+        if r < 0.3:
+            out.append(("r-value", "@%s{R1, %s = {%s}, z = 1}" % (typ(), nm(), body)))
+        elif r < 0.5:
+            out.append(("r-comment", "@comment{%s}" % body))
+        elif r < 0.65:
+            out.append(("r-preamble", "@preamble{%s}" % body))
+        elif r < 0.75:
+            out.append(("r-string", "@string{R1 = {%s}}" % body))
+        else:
+            out.append(("r-free", "@%s{R1}\n%s" % (typ(), body.strip())))
+    return out
 
 
 def _view(b, depth=0):
@@ -165,10 +355,26 @@ def impl(case):
                     break
         if ok and x.strip() == "" and len(v) != len(v1) + len(v2):
             ok, detail = False, "concatenation of well-formed documents gives %d blocks instead of %d" % (len(v), len(v1) + len(v2))
+    if ok and x != "":
+        # first clause on its own: the arbitrary text is the end of the input (nothing well-formed behind it)
+        r3 = SC.split_impl(d1 + x)
+        v3 = _views(r3[1]) if r3[0] != "exc" else None
+        if v3 is None:
+            ok, detail = False, "parse of prefix + arbitrary text raised"
+        elif len(v3) < len(v1):
+            ok, detail = False, "prefix + arbitrary text: %d blocks, the prefix alone has %d" % (len(v3), len(v1))
+        else:
+            for i, w in enumerate(v1):
+                d = _same(w, v3[i], 0)
+                if d:
+                    ok, detail = False, "block %d of the well-formed prefix changed by the text behind it (no suffix): %s" % (i, d)
+                    break
     rec["oracle"] = {"ok": ok, "detail": detail}
     rec["nontrivial"] = x.strip() != ""
     rec["key"] = str(hash((d1, x, d2)))
     rec["tags"] = [case["stream"]]
+    if "state" in inp:
+        rec["tags"] += ["TR-state:" + inp["state"], "TR-suffix:" + inp["hclass"]]
     return rec
 
 
